@@ -294,6 +294,30 @@ func (r *runner) answerRaw(kind string, rng *emit.Rand) bool {
 			add(from)
 			add(from + 1)
 		}
+	case "dup_inside": // a header twice in a row: the shim's walk takes the second as "the head itself again"
+		for i := 0; i < size; i++ {
+			add(from + 1 + uint64(i))
+			if i == 0 || rng.Chance(30) {
+				add(from + 1 + uint64(i))
+			}
+		}
+	case "foreign_tail": // starts with the true next header and goes on with headers of nobody's chain at the right
+		// heights: the shim looks at heights only, the answer is stored (range answers are the trusted getter's)
+		add(from + 1)
+		n := 1 + rng.Intn(3)
+		for i := 1; len(hs) > 0 && i <= n && i < size; i++ {
+			hs = append(hs, &vhdr.Header{Chain: "a", H: from + 1 + uint64(i), T: hs[len(hs)-1].T + 1, Prev: []byte("foreign"), Nonce: rng.U64()})
+		}
+	case "foreign_gap": // the true next header, then a foreign header two heights on: refused as a whole, nothing of it stored
+		add(from + 1)
+		if len(hs) == 1 {
+			hs = append(hs, &vhdr.Header{Chain: "a", H: from + 3, T: hs[0].T + 1, Prev: []byte("foreign"), Nonce: rng.U64()})
+		}
+	case "foreign_same": // the true next header, then ANOTHER header of the same height: neither the head again nor head+1
+		add(from + 1)
+		if len(hs) == 1 {
+			hs = append(hs, &vhdr.Header{Chain: "a", H: from + 1, T: hs[0].T + 1, Prev: []byte("foreign"), Nonce: rng.U64()})
+		}
 	}
 	terms := make([]string, len(hs))
 	for i, h := range hs {
@@ -505,7 +529,7 @@ func randomScript(maxActs int) func(r *runner, rng *emit.Rand) {
 				case d < 12:
 					r.answerErr()
 				case d < 40:
-					r.answerRaw([]string{"empty", "shifted", "overlong", "overlong", "sparse", "lower"}[rng.Intn(6)], rng)
+					r.answerRaw([]string{"empty", "shifted", "overlong", "overlong", "sparse", "lower", "dup_inside", "foreign_tail", "foreign_gap", "foreign_same"}[rng.Intn(10)], rng)
 				default:
 					size := int(req.To - req.From.Height() - 1)
 					k := size
@@ -640,6 +664,17 @@ func TestC03(t *testing.T) {
 			}
 			r.answerRaw("overlong", rng)
 		}},
+		{"foreign_answers", false, 0, func(r *runner, rng *emit.Rand) {
+			r.deliver(r.f.At(r.local().Height()+20), "skip")
+			for _, k := range []string{"foreign_gap", "foreign_same", "dup_inside"} {
+				r.answerRaw(k, rng)
+				r.deliver(r.gossipOf("next", rng), "next")
+			}
+			r.answerPrefix(2)
+			r.answerRaw("foreign_tail", rng)
+			r.deliver(r.gossipOf("next", rng), "next")
+			r.finish(rng)
+		}},
 		{"overlong_past_cached", true, 0, func(r *runner, rng *emit.Rand) {
 			r.deliver(r.f.At(r.local().Height()+6), "skip")
 			r.answerRaw("overlong", rng)
@@ -767,6 +802,34 @@ func TestC03(t *testing.T) {
 			emit.List(res), emit.List(run.Probe), emit.List(hs), run.Hashes)
 		w.Add(term, map[string]any{"class": class, "what": run.Note}, class, true)
 		w.Count("class", class)
+	}
+	// random scripts over the slow underlying store (every Store.Append parked, then released or failed): real time
+	nSlow, slowActs := 10, 16
+	if emit.Thorough() {
+		nSlow, slowActs = 60, 24
+	}
+	slowRuns, slowStats, err := syncfx.RunSlowScripts(emit.Seed(), nSlow, slowActs)
+	if err != nil {
+		t.Fatalf("slow-store scripts: %v", err)
+	}
+	for k, v := range slowStats {
+		for i := 0; i < v; i++ {
+			w.Count("slow_store_action", k)
+		}
+	}
+	for _, run := range slowRuns {
+		res := make([]string, len(run.Results))
+		for i, x := range run.Results {
+			res[i] = fmt.Sprint(x)
+		}
+		hs := make([]string, len(run.Heights))
+		for i, x := range run.Heights {
+			hs[i] = fmt.Sprint(x)
+		}
+		term := fmt.Sprintf("Case03 %s 0 %s %d %s %s %s %s %s %s %d", emit.Z(run.Drift), emit.B(run.Gate), run.Tail, run.Init, run.Chain, emit.List(run.Acts),
+			emit.List(res), emit.List(run.Probe), emit.List(hs), run.Hashes)
+		w.Add(term, map[string]any{"class": "random/slow_store", "what": run.Note}, "random/slow_store", len(run.Acts) >= 4)
+		w.Count("class", "random/slow_store")
 	}
 	for _, sc := range scs {
 		runScenario(t, w, sc, rng)
